@@ -17,6 +17,7 @@ var c12Blocks = []absDay{
 	{Date: "2021/01/26"},
 	{Date: "2021/01/25", Entries: []absIng{{"k/r1", -1}, {"cal", -2}}},
 	{Date: "2021/01/24", Entries: []absIng{{"k/r1", 1}, {"u", 1}, {"k/r1", 0.5}}, Notes: []absNote{{"mood", "ok"}}},
+	{Date: "2021/01/27", Entries: []absIng{{"fish & chips <x> 'y'", 1}, {"k", 2}}, Notes: []absNote{{"", "50% done"}}},
 }
 
 var c12PerDay = [][]string{
